@@ -156,6 +156,62 @@ example : applyOpt .transport_Args defaults { opt := .WithPort, args := [[[50,48
   unfold applyOpt; simp [failsOn, applies, spec, errOf, argValid]
   funext f; simp [applyWrites, applyWrite, setField, valueOf]
 
+/-! ## `option_value_verbatim`: the value lands verbatim on its target -/
+
+/-- table obligation: the regenerated row of every option (assigned fields, set/append, value
+source) is the expected one. A normalising step in the source — any function applied to the
+argument other than a Go type conversion, or a re-assignment of the parameter — turns `.param i`
+into `.derived i` / `.fresh` in the regenerated table and breaks this. -/
+theorem option_rows_as_expected : changedOptionRows = [] := by decide +kernel
+
+/-- table obligation: every platform option name builds the expected option from a value of the
+documented type through the declared conversion only (bare value, `regexp.MustCompile(value)`,
+seconds→duration); a helper or `strings.TrimSpace` around the value regenerates as `.other`. -/
+theorem platform_rows_as_expected : changedPlatformRows = [] := by decide +kernel
+
+theorem expected_row_holds {o : Opt} {ws : List Write} (h : (o, ws) ∈ expectedRows) :
+    (spec o).writes = ws := by
+  have h0 := option_rows_as_expected
+  unfold changedOptionRows at h0
+  have h1 : (expectedRows.filter fun p => (spec p.1).writes != p.2) = [] := by
+    simpa using h0
+  rw [List.filter_eq_nil_iff] at h1
+  have := h1 (o, ws) h
+  simpa using this
+
+/-- no expected row assigns the same field twice -/
+theorem expected_rows_fields_distinct :
+    expectedRows.all (fun p => p.2.all fun w => p.2.filter (·.field = w.field) == [w]) = true := by
+  decide +kernel
+
+/-- **The value lands verbatim.** For every option of the (regenerated = expected) table and every
+field it assigns from its i-th argument: applying the option, built from any value, to an object
+of its target type leaves exactly that value in the field (replacing options), respectively the
+previous content followed by exactly that value (additive options) — no trimming, case folding
+or other normalisation, for values of any content and length. -/
+theorem option_value_verbatim (o : Opt) (ws : List Write) (hrow : (o, ws) ∈ expectedRows)
+    (w : Write) (hw : w ∈ ws) (i : Nat) (hsrc : w.src = .param i)
+    (oi : OptInst) (hoi : oi.opt = o) (T : Target) (hT : applies T oi = true)
+    (c c' : Config) (h : applyOpt T c oi = .ok c') :
+    c' w.field = match w.mode with
+      | .set => oi.args.getD i []
+      | .append => c w.field ++ oi.args.getD i [] := by
+  have hspec : (spec oi.opt).writes = ws := by rw [hoi]; exact expected_row_holds hrow
+  have hd := List.all_eq_true.1 (List.all_eq_true.1 expected_rows_fields_distinct (o, ws) hrow) w hw
+  have hd' : ws.filter (·.field = w.field) = [w] := by simpa using hd
+  cases hfail : failsOn T oi with
+  | some e => simp [applyOpt, hfail] at h
+  | none =>
+    rw [applyOpt_ok c hfail] at h
+    cases h
+    show List.foldl stepVal (c w.field) (writesTo T w.field oi) = _
+    simp only [writesTo, hT, if_true, hspec, hd', List.map_cons, List.map_nil, List.foldl_cons,
+      List.foldl_nil, stepVal, valueOf, hsrc]
+    cases w.mode <;> rfl
+
+example : (Opt.WithAuthUsername, [(⟨.transport_Args_User, .set, .param 0⟩ : Write)]) ∈ expectedRows := by
+  decide +kernel
+
 /-! ## `ignored_is_silent` -/
 
 /-- An option applied to an object that is not its target returns the ignored sentinel (which the
@@ -525,7 +581,7 @@ theorem platform_option_names_total :
                 (documentedGoType e.documented).getD ""]
            | .regexp => e.documented == "a string" && (spec o).params == ["*regexp.Regexp"]
            | .seconds => e.documented == "a float" && (spec o).params == ["time.Duration"]
-           | .none => false)) = true := by
+           | _ => false)) = true := by
   decide +kernel
 
 open Scrapli.Gen.PlatformOptions in
@@ -588,6 +644,38 @@ theorem platformOpt_meets_spec (name : Bytes) (v : YVal) (oi : OptInst)
           simp only [ht.1, if_true]
           exact h
         · simp [hv] at h
+
+/-- Platform side: a string / int / list value of the documented type reaches the option as
+exactly that value (`oi.args = [value]`), for every recognised name; with
+`platform_rows_as_expected` the only thing in between is the declared conversion. -/
+theorem platform_value_verbatim (name : Bytes) (v : YVal) (oi : OptInst)
+    (h : platformOptSpec name v = some oi) (hne : oi.args ≠ []) (hflt : ∀ b n, v ≠ .flt b n) :
+    platformOpt name v = some oi ∧
+      oi.args = [match v with
+        | .str s => [s] | .int d => [d] | .lst xs => xs
+        | .bool b => [if b then tokTrue else [102,97,108,115,101]] | _ => []] := by
+  refine ⟨platformOpt_meets_spec name v oi h, ?_⟩
+  unfold platformOptSpec at h
+  cases he : findEntry name with
+  | none => simp [he] at h
+  | some e =>
+    simp only [he] at h
+    cases ho : e.opt with
+    | none => simp [ho] at h
+    | some o =>
+      simp only [ho] at h
+      split at h
+      · cases h; exact absurd rfl hne
+      · split at h
+        · cases h
+          cases v with
+          | flt b n => exact absurd rfl (hflt b n)
+          | str s => cases e.conv <;> rfl
+          | int d => cases e.conv <;> rfl
+          | lst xs => cases e.conv <;> rfl
+          | bool b => cases e.conv <;> rfl
+          | null => cases e.conv <;> rfl
+        · cases h
 
 /-- `netconf.NewDriver` hands the logger of the generic driver it is built from to the NETCONF
 driver (so `WithLogger` / `WithDefaultLogger` land on the driver the user gets back). -/
